@@ -185,6 +185,15 @@ def loop_fail_test(run: ast.FunctionDef) -> str:
 
 
 def init_store_test(prep: ast.FunctionDef) -> str:
+    # the walker ADOPTS the minimiser's output array (the model's initial state is that output, exactly): one plain
+    # rebinding of coords.position; writing into the caller's start array would cast to that array's dtype
+    adopt = [n for n in ast.walk(prep) if isinstance(n, (ast.Assign, ast.AugAssign)) and
+             any("coords.position" in ast.unparse(t) for t in (n.targets if isinstance(n, ast.Assign) else [n.target]))]
+    ok = ("min_position", "min_position.copy()", "np.array(min_position)", "np.array(min_position, copy=True)")
+    if len(adopt) != 1 or not isinstance(adopt[0], ast.Assign) or ast.unparse(adopt[0].targets[0]) != "coords.position" \
+            or ast.unparse(adopt[0].value) not in ok or adopt[0] not in prep.body:
+        raise Unavailable("prepare_initial_coordinates: the walker does not adopt the minimiser's output by "
+                          "`coords.position = min_position`")
     for s in prep.body:
         if isinstance(s, ast.If) and "warnflag" in ast.unparse(s.test):
             if not any("test_new_minimum" in ast.unparse(b) for b in s.body):
